@@ -54,8 +54,14 @@ def cleanup(d):
 def build_harness(race=False):
     """(re)build the conformance driver from /repo's current working tree with hooks on."""
     os.makedirs(os.path.join(WORKROOT, "bin"), exist_ok=True)
-    out = os.path.join(WORKROOT, "bin", "drive-race" if race else "drive")
-    shutil.copy(os.path.join(REPO, "go.sum"), os.path.join(HARNESS, "go.sum"))
+    # one binary per process: checks may run side by side (each rebuilds from /repo's working tree)
+    out = os.path.join(WORKROOT, "bin", "%s-%d" % ("drive-race" if race else "drive", os.getpid()))
+    import atexit
+    atexit.register(lambda p=out: os.path.exists(p) and os.remove(p))
+    gosum = os.path.join(HARNESS, "go.sum")
+    tmp = gosum + ".%d" % os.getpid()
+    shutil.copy(os.path.join(REPO, "go.sum"), tmp)
+    os.replace(tmp, gosum)
     cmd = ["go", "build", "-tags", "verif", "-o", out]
     if race:
         cmd.append("-race")
